@@ -436,5 +436,8 @@ def normalize(tree, modname):
         for q, func in function_table(tree, modname).items():
             if q in known_funcs:
                 n += inline.inline_temporaries(func, set(locs.get(q, [])))
+                n += inline.inline_block_temporaries(
+                    func, set(locs.get(q, [])))
+                n += inline.inline_temporaries(func, set(locs.get(q, [])))
         info["temporaries_inlined"] = n
     return info
